@@ -311,6 +311,7 @@ CHECKS["C13"] = {
         {"engine": "E", "proxy": ["plain"], "tests": [
             {"run": "TestVfC13Framing", "quick": 480, "thorough": 85710, "shards_quick": 8, "shards_thorough": 16, "timeout_thorough": 3400},
             {"run": "TestVfC13CounterAfterRefusals", "quick": 24, "thorough": 800, "shards_quick": 8, "shards_thorough": 16, "timeout_thorough": 3000},
+            {"run": "TestVfC13LongLived", "quick": 8, "thorough": 480, "shards_quick": 8, "shards_thorough": 16, "timeout_quick": 300, "timeout_thorough": 3400, "shrinktime": "60s"},
             {"run": "TestVfC13SlowSegments", "quick": 16, "thorough": 320, "shards_quick": 8, "shards_thorough": 16, "timeout_quick": 300, "timeout_thorough": 3400, "shrinktime": "60s"},
         ]},
     ],
@@ -326,6 +327,7 @@ CHECKS["C04"] = {
     "parts": [
         {"engine": "E", "proxy": ["plain", "race"], "tests": [
             {"run": "TestVfC04Mixups", "quick": 6, "thorough": 400, "shards_quick": 6, "shards_thorough": 8, "timeout_quick": 900, "timeout_thorough": 3500, "shrinktime": "90s"},
+            {"run": "TestVfC04SharedConn", "quick": 2000, "thorough": 400000, "shards_quick": 4, "shards_thorough": 16, "timeout_thorough": 3400},
         ]},
     ],
     "assumptions": ["fake upstream answers are a keyed function of the question only, so cached and fresh answers coincide"],
